@@ -129,9 +129,11 @@ def docVarVal (sx : SpecCtx R) : Doc → VarVal R
   | .tru => .tru | .fals => .fals | .null => .null | .str s => .str s
   | _ => .other
 
-/-- value of an expression text (C04 reference semantics: scan, build the tree, evaluate) -/
-def evalText (sx : SpecCtx R) (scope : List Binding) (e : List Nat) : Option (Val R) :=
-  let content := e ++ [125]
+/-- value of an expression text (C04 reference semantics: scan, build the tree, evaluate).  The text is
+scanned as it stands in its tag: followed by `term`, the tag's `}` or the attribute's closing quote
+(the printer always writes `"`). -/
+def evalText (sx : SpecCtx R) (scope : List Binding) (e : List Nat) (term : Nat := 125) : Option (Val R) :=
+  let content := e ++ [term]
   match Qentem.Expr.parseTop ({ readNum := sx.readNum } : ScanCfg R) content 0 e.length with
   | .ok [] => none
   | .ok items =>
@@ -182,7 +184,7 @@ def expandTpl (sx : SpecCtx R) : Nat → List Binding → Tpl → List Nat
     | some .null => escapeS sx (str "null")
     | _ => printTpl (.svar p args)
   | fuel + 1, scope, .iif c t f =>
-    match isTrue (evalText sx scope c) with
+    match isTrue (evalText sx scope c 34) with
     | none => []
     | some true => (match t with | some ts => expandList sx fuel scope ts | none => [])
     | some false => (match f with | some fs => expandList sx fuel scope fs | none => [])
@@ -205,7 +207,7 @@ def expandBranches (sx : SpecCtx R) : Nat → List Binding → List (Option (Lis
   | fuel + 1, scope, (c, body) :: rest =>
     let hit := match c with
       | none => true
-      | some cs => isTrue (evalText sx scope cs) == some true
+      | some cs => isTrue (evalText sx scope cs 34) == some true
     if hit then expandList sx fuel scope body else expandBranches sx fuel scope rest
 
 def loopArr (sx : SpecCtx R) : Nat → List Binding → List Nat → List Tpl → List Doc → List Nat
